@@ -1,6 +1,7 @@
 import MJ.Proofs.SafeOnce
 import MJ.Proofs.SafeCheck
 import MJ.Proofs.SafeCallables
+import MJ.Model.SafeSites
 /-!
 # C02 — HTML auto-escaping is sound: unsafe data is escaped exactly once
 
@@ -215,6 +216,36 @@ example : (randomF 1 [.str (ofData "a<") true]).map (fun v => (text v.display, i
 theorem all_safe_bit_readers_modelled :
     ∀ s ∈ Gen.safeBitReaderSites, s ∈ modelledReaderSites.map (·.1) := by decide
 
+/-- **every way text reaches an `Output` is accounted for**: the program points of crate `minijinja`
+    that write to an `Output` directly, call `write_escaped`, call the environment's formatter or create
+    a new sink (file, function, kind and number regenerated from ALL sources of the crate) are exactly
+    the ones the model transcribes — the only raw write in the vm is `EmitRaw` (template text), values
+    are written through `write_escaped` / the formatter only.  A new fast path that writes a value raw,
+    or a new caller of `write_escaped` with a mode of its own, breaks this theorem. -/
+theorem all_output_write_sites_modelled :
+    (∀ s ∈ Gen.c02OutputWriteSites, s ∈ modelledWriteSites.map (·.1)) ∧
+    (∀ s ∈ modelledWriteSites.map (·.1), s ∈ Gen.c02OutputWriteSites) := by decide +kernel
+
+/-- non-vacuity: the vm's value path and the template-text path are both in the regenerated list -/
+example : "minijinja/src/vm/mod.rs::eval_impl::escapedx1" ∈ Gen.c02OutputWriteSites
+    ∧ "minijinja/src/vm/mod.rs::eval_impl::rawx1" ∈ Gen.c02OutputWriteSites ∧ Gen.c02OutputWriteSites.length ≥ 15 := by decide +kernel
+
+/-- **where the mode of an execution comes from**: every program point of crate `minijinja` that
+    supplies the auto-escape mode an execution starts in — the compiled template's flag
+    (`default_auto_escape(name)` of the name it is compiled under), `Template::_eval` / `new_state`
+    (that flag), `Expression::_eval` (`None`), include (the included template's OWN flag), blocks,
+    `super()` and macros (the current mode) — and every call of `Output::end_capture` with the mode it
+    passes (the current mode; `None` only for the discarded top level of a child template) is exactly
+    the list the interpreter transcribes.  An
+    include that asks the callback about the name as written, an entry point that starts in another
+    mode, or a new call of `with_execution_state` breaks this theorem. -/
+theorem all_mode_sources_modelled :
+    (∀ s ∈ Gen.c02ModeSources, s ∈ modelledModeSources.map (·.1)) ∧
+    (∀ s ∈ modelledModeSources.map (·.1), s ∈ Gen.c02ModeSources) := by decide +kernel
+
+example : "minijinja/src/vm/mod.rs::perform_include::with_execution_state::tmpl.initial_auto_escape() x1" ∈ Gen.c02ModeSources
+    ∧ Gen.c02ModeSources.length ≥ 10 := by decide +kernel
+
 /-! ## programs (stage "programs": the theorems are stated over template programs)
 
 `execProg strict p ctx` (`MJ/Model/SafeProg.lean`) is the big-step interpreter of template programs
@@ -394,6 +425,84 @@ theorem escaped_once_capture_open (strict : Bool) (fuel : Nat) (env : Env) (body
     (hb : execStmts strict fuel env.inCapture body { st with caps := [] :: st.caps } = some (vs, st1)) :
     ∃ buf rest, st1.caps = buf :: rest :=
   capture_open ((exec_ht strict fuel).2.2.2.2.2.1 env.inCapture body _ hEnv.inCapture hok) hs hb
+
+/-! ## the main theorem: the property of the ENGINE, the gap to what is proved as named hypotheses
+
+Everything above is about the executable model.  `C02_main` states the property for the engine
+itself, as far as the property observes it, and lists what separates the two:
+
+* `Faithful E` (VALIDATED ONLY — streams P, W, T, K, M, N, B, R, E of the correspondence: the engine's
+  text / value is byte-equal to the interpreter's on every generated program, through every entry
+  point — `Template::render`, `render_captured`, `render_captured_to`, `Environment::render_named_str`,
+  `new_state` + `render_block(_to_write)`, `State::call_macro` —, for templates registered or loaded,
+  with any auto-escape callback, path-join callback and the documented formatter wrapper);
+* that the interpreter's primitives are the engine's: tied by the regenerated tables
+  (`write_escaped_dispatch_matches`, `as_str_arms_match`, `all_value_reprs_classified`,
+  `all_safe_producers_modelled`, `non_producers_classified`, `producer_sites_attributed`,
+  `all_safe_bit_readers_modelled`, `all_output_write_sites_modelled`, `all_mode_sources_modelled`) — theorems, not hypotheses;
+* the fragment (`ProgOk`, `OkE`): the safe-marking-free programs of the property's quantifier. -/
+
+/-- what the engine computes, as far as the property observes it: the text a template program
+    renders to (the program holds the RESOLVED template names, each selects its own mode), the text of
+    `render_captured` + `State::render_block`, the value of `Expression::eval`; `none` = an error
+    (nothing is observed) -/
+structure Engine where
+  render : Prog → List (String × CV) → Option TStr
+  renderBlock : Prog → String → List (String × CV) → Option TStr
+  eval : Expr → List (String × CV) → Option V
+
+/-- hypothesis FAITHFUL: whatever the engine produces, the interpreter produces the same (validated
+    differentially, not proved) -/
+structure Faithful (E : Engine) : Prop where
+  render : ∀ p ctx out, E.render p ctx = some out → ∃ st, execProg false p ctx = some st ∧ st.out = out
+  renderBlock : ∀ p b ctx out, E.renderBlock p b ctx = some out → ∃ st, execBlock false p b ctx = some st ∧ st.out = out
+  eval : ∀ e ctx v, E.eval e ctx = some v → ∃ st, execExpr false e ctx = some (v, st)
+
+/-- the property, for an engine: over the safe-marking-free fragment nothing data-tainted is written
+    raw by any entry point, and a value handed back to the host carries no `Safe` string with a
+    data-tainted metacharacter (so it is not written raw later either) -/
+def C02_engine (E : Engine) : Prop :=
+  (∀ p ctx out, ProgOk p → E.render p ctx = some out → Clean out) ∧
+  (∀ p b ctx out, ProgOk p → E.renderBlock p b ctx = some out → Clean out) ∧
+  (∀ e ctx v, OkE .none e → E.eval e ctx = some v → Inv v)
+
+theorem C02_main (E : Engine) (hF : Faithful E) : C02_engine E := by
+  refine ⟨?_, ?_, ?_⟩
+  · intro p ctx out hp h
+    obtain ⟨st, hs, ho⟩ := hF.render p ctx out h
+    exact ho ▸ program_no_raw_tainted_meta p ctx st hp hs
+  · intro p b ctx out hp h
+    obtain ⟨st, hs, ho⟩ := hF.renderBlock p b ctx out h
+    exact ho ▸ render_block_no_raw_tainted_meta p b ctx st hp hs
+  · intro e ctx v he h
+    obtain ⟨st, hs⟩ := hF.eval e ctx v h
+    exact expression_eval_inv e ctx v st he hs
+
+/-- non-vacuity: the interpreter itself is a faithful engine, so `Faithful` is satisfiable and
+    `C02_engine` holds of it; it renders the demo program below to escaped text -/
+def modelEngine : Engine where
+  render p ctx := (execProg false p ctx).map (·.out)
+  renderBlock p b ctx := (execBlock false p b ctx).map (·.out)
+  eval e ctx := (execExpr false e ctx).map (·.1)
+
+theorem modelEngine_faithful : Faithful modelEngine where
+  render := by
+    intro p ctx out h
+    simp only [modelEngine, Option.map_eq_some_iff] at h
+    obtain ⟨st, hs, ho⟩ := h
+    exact ⟨st, hs, ho⟩
+  renderBlock := by
+    intro p b ctx out h
+    simp only [modelEngine, Option.map_eq_some_iff] at h
+    obtain ⟨st, hs, ho⟩ := h
+    exact ⟨st, hs, ho⟩
+  eval := by
+    intro e ctx v h
+    simp only [modelEngine, Option.map_eq_some_iff] at h
+    obtain ⟨⟨v', st⟩, hs, ho⟩ := h
+    exact ⟨st, by simpa [← ho] using hs⟩
+
+example : C02_engine modelEngine := C02_main modelEngine modelEngine_faithful
 
 /-! ## the hypotheses are necessary (the excluded constructs really break the invariant) -/
 
